@@ -61,3 +61,26 @@ Fixpoint rmatch (fuel : nat) (r : regex) (s : text) : option text :=   (* the ma
     end
   end.
 Definition re_match (r : regex) (s : text) : option text := rmatch (2 * (length s + length r) + 2) r s.
+
+(* ---- reading the statement list of minify(): which stage runs under which options ---- *)
+Fixpoint eval_gate (O : string -> bool) (tainted ann_any : bool) (g : gate) : bool :=
+  match g with
+  | GTrue => true
+  | GOpt o => O o
+  | GIsTrue o => O o
+  | GAnnAny => ann_any
+  | GTainted => tainted
+  | GNot g' => negb (eval_gate O tainted ann_any g')
+  | GAnd a b => eval_gate O tainted ann_any a && eval_gate O tainted ann_any b
+  end.
+Fixpoint gates_of (callee : string) (body : list pstmt) : list gate :=
+  match body with
+  | [] => []
+  | PStage g c _ :: rest => if String.eqb c callee then g :: gates_of callee rest else gates_of callee rest
+  | _ :: rest => gates_of callee rest
+  end.
+(* a stage runs when one of its occurrences has a true gate *)
+Definition stage_runs (body : list pstmt) (O : string -> bool) (tainted ann_any : bool) (callee : string) : bool :=
+  existsb (eval_gate O tainted ann_any) (gates_of callee body).
+Fixpoint stage_order (body : list pstmt) : list string :=
+  match body with [] => [] | PStage _ c _ :: rest => c :: stage_order rest | _ :: rest => stage_order rest end.
